@@ -227,12 +227,14 @@ structure Facts where
   triggersUseLocked : Tri
   /-- Load's self-heal goes through CompactFromIndex -/
   loadUsesFromIndex : Tri
+  /-- reader facts: not used by any C03 theorem (clean files load under every reader
+      configuration); they steer the correspondence driver on images with a damaged temp -/
+  shortHeaderIsEOF : Tri
+  tornDataIsEOF : Tri
   deriving Repr
 
-/-- reader facts are irrelevant to C03 (clean files load under every reader configuration);
-    any fixed value will do -/
 def cfgOf (f : Facts) : Cfg :=
-  { r := ⟨true, false, false⟩, syncFsyncs := true, closeFsyncs := f.closeFsyncs.isYes,
+  { r := ⟨f.shortHeaderIsEOF.isYes, f.tornDataIsEOF.isYes, false⟩, syncFsyncs := true, closeFsyncs := f.closeFsyncs.isYes,
     truncatesTornTail := false, loadCleansTemp := f.loadCleansTemp.isYes,
     rmTempLocked := f.rmTempLocked.isYes, rmTempFromIndex := f.rmTempFromIndex.isYes,
     rmTempCompactor := f.rmTempCompactor.isYes }
@@ -241,7 +243,8 @@ def modelApplies (f : Facts) : Bool :=
   f.opensExistingForAppend.isYes && f.renameAfterClose.isYes && f.flushOrderCanonical.isYes &&
   f.cliUsesCompactorOnly.isYes && f.triggersUseLocked.isYes && f.loadUsesFromIndex.isYes &&
   f.rmTempLocked != .unknown && f.rmTempFromIndex != .unknown && f.rmTempCompactor != .unknown &&
-  f.loadCleansTemp != .unknown && f.closeFsyncs != .unknown
+  f.loadCleansTemp != .unknown && f.closeFsyncs != .unknown &&
+  f.shortHeaderIsEOF != .unknown && f.tornDataIsEOF != .unknown
 
 def findings (f : Facts) : List String :=
   (if EP.rmFirst (cfgOf f) .locked then [] else ["C03-locked-stale-temp"]) ++
